@@ -561,14 +561,19 @@ class ObjEvaluator(Evaluator):
             env[a.kwarg.arg] = extra
         elif extra:
             raise PyRaise("TypeError", node, "unexpected keyword %s for %s" % (sorted(extra), fn.name))
+        from .symeval import is_generator
+        gen = is_generator(fn)
+        if gen:
+            env["$yield"] = []      # a generator method is run to completion: the caller gets the list of yielded values
         self.depth += 1
         try:
             self.exec_block(fn.body, env)
         except _Return as r:
-            return r.value
+            if not gen:
+                return r.value
         finally:
             self.depth -= 1
-        return None
+        return env["$yield"] if gen else None
 
     # -------------------------------------------------------------- operators
     def binop(self, op, a, b, node):
